@@ -45,7 +45,7 @@ impl Prop for C19 {
         "fault_enumeration"
     }
     fn rule(&self) -> String {
-        "cases = a generated conversation (C03-style: writer programs with explicit finishes and drops, prepared statements, QUIT- or EOF-terminated, generated read/write chunking) run fault-free to obtain its operation trace (N transport operations, B inbound bytes), then re-run with EVERY fault point: end-of-stream after k bytes for k = 0..B; a one-off error at operation k and a persistent error from operation k (each with io::ErrorKind ConnectionReset, UnexpectedEof and one of Other / BrokenPipe / TimedOut), write() -> Ok(0) at operation k for k = 0..N-1, and a read interrupted with ErrorKind::Interrupted at every read operation (which the library may either report or retry transparently, but the callback log must stay a prefix of the fault-free log); plus a tagged shim error at every callback index; enumerated conversations whose response contains a packet of 2^24-1 bytes or more (written explicitly and from a destructor); one generated conversation in twelve is instead run over TLS (rustls client in the transport) and ended at TLS-level points: a clean close (close_notify + end of stream) after the first m messages for every m (m = 0: TLS session established but no handshake response => Err and no callback; m >= 1 => Ok), and an abrupt end of stream at 10 sampled positions before the encrypted handshake response is complete (=> Err, no callback). Oracle: EOF => Ok iff k is a command boundary at or after the end of the handshake exchange (or QUIT was already consumed), else Err; transport fault => Err (never Ok, never a panic), the callback log is a prefix of the fault-free log and no callback starts after the fault; shim error => returned unchanged, no later callback. evaluations counts conversations; faulted_runs counts the enumerated re-runs. Non-trivial = the conversation has >= 3 commands and >= 1 resultset program.".into()
+        "cases = a generated conversation (C03-style: writer programs with explicit finishes and drops, prepared statements, QUIT- or EOF-terminated, generated read/write chunking) run fault-free to obtain its operation trace (N transport operations, B inbound bytes), then re-run with EVERY fault point: end-of-stream after k bytes for k = 0..B; a one-off error at operation k and a persistent error from operation k (each with io::ErrorKind ConnectionReset, UnexpectedEof and one of Other / BrokenPipe / TimedOut), write() -> Ok(0) at operation k for k = 0..N-1, and a read interrupted with ErrorKind::Interrupted at every read operation (which the library may either report or retry transparently, but the callback log must stay a prefix of the fault-free log); plus a tagged shim error at every callback index; enumerated conversations whose response contains a packet of 2^24-1 bytes or more (written explicitly and from a destructor); one generated conversation in twelve is instead run over TLS (rustls client in the transport) and ended at TLS-level points: a clean close (close_notify + end of stream) after the first m messages for every m (m = 0: TLS session established but no handshake response => Err and no callback; m >= 1 => Ok), and an abrupt end of stream at 10 sampled positions before the encrypted handshake response is complete (=> Err, no callback), and four malformed encrypted handshake responses (truncated; unterminated long UTF-8 user name => Err, no callback, no panic). Oracle: EOF => Ok iff k is a command boundary at or after the end of the handshake exchange (or QUIT was already consumed), else Err; transport fault => Err (never Ok, never a panic), the callback log is a prefix of the fault-free log and no callback starts after the fault; shim error => returned unchanged, no later callback. evaluations counts conversations; faulted_runs counts the enumerated re-runs. Non-trivial = the conversation has >= 3 commands and >= 1 resultset program.".into()
     }
     fn exhaustive_note(&self, _tier: Tier) -> Option<String> {
         Some("fault points of each generated conversation (all k for EOF / one-off / persistent / zero-write faults, all callback indexes for shim errors)".into())
@@ -423,6 +423,42 @@ fn exec_tls(c: &Conversation, t: &TlsEnds, ex: &mut Exec) {
                 ex.fail("c19-tls-callback-before-handshake", format!("end of stream after {} bytes: callback {} ran", k, o.events[0].brief()));
                 return;
             }
+        }
+    }
+    // (c) a malformed handshake response inside the TLS session (truncated after k bytes, or with
+    // an unterminated user name): an error return, no callback, no panic
+    let hs = c.hs.payload();
+    for (i, pick) in t.picks.iter().take(4).enumerate() {
+        let bad: Vec<u8> = if i == 3 {
+            let mut b = hs[..32.min(hs.len())].to_vec();
+            b.extend(std::iter::repeat(b'a').take(200));
+            b.extend("\u{e9}".repeat(100).as_bytes());
+            b
+        } else {
+            let k = (*pick as u64 * (hs.len().min(36) as u64) >> 32) as usize;
+            hs[..k].to_vec()
+        };
+        let mut m0 = Vec::new();
+        frame_into(&mut m0, &bad, 2);
+        let (peer, _log) = TlsClientPeer::new(client_config(t.tls13, false, 0), ssl_req.clone(), vec![m0], vec![ReplyKind::OkOrErr], true);
+        let tr = Transport::new(Vec::new(), Schedule::all_at_once(), Fault::None);
+        tr.0.borrow_mut().peer = Some(Box::new(peer));
+        let o = run_raw_tls(c, tr, Some(fx.server_plain.clone()));
+        runs += 1;
+        match &o.result {
+            RunResult::ErrIo { .. } => {}
+            RunResult::Panic(p) => {
+                ex.fail(format!("c19-tls-panic|{}", panic_signature(p)), format!("malformed handshake response ({} bytes) inside TLS: {}", bad.len(), o.result.brief()));
+                return;
+            }
+            other => {
+                ex.fail("c19-tls-malformed-handshake-ok", format!("malformed handshake response ({} bytes) inside TLS: run_on returned {}", bad.len(), other.brief()));
+                return;
+            }
+        }
+        if !o.events.is_empty() {
+            ex.fail("c19-tls-callback-before-handshake", format!("malformed handshake response inside TLS: callback {} ran", o.events[0].brief()));
+            return;
         }
     }
     ex.count("faulted_runs", runs);
